@@ -157,8 +157,12 @@ class Scripted(Device):
         self.store = {}
         self.restrict_rng = None
         self.restrict_p = 0.0
+        self.mute_rng = None              # receivers do not answer everything (a PUT of the current value, many action commands): some
+        self.mute_p = 0.0                 # commands, probes included, get no reply at all
 
     def answer(self, line):
+        if self.mute_rng is not None and self.mute_rng.random() < self.mute_p:
+            return []
         if line in self.table:
             v = self.table[line]
             return list(v) if isinstance(v, (list, tuple)) else [v]
